@@ -30,12 +30,22 @@ NOTES = {
  'C08-5': 'strengthened: missed at first (no call with a per-call NumConv option); the parse groups of C08 and the reader alphabets of C07 gained big-number documents read with and without NumConvString / NumConvFloat64',
  'C08-6': 'strengthened: missed at first (the expected results were computed on the shared objects, which completed them); shared objects are now snapshotted as constructed and must not change on first use, the race pass runs the concurrent calls on a second, never used set of shared objects, and the alt group has a type whose field types are only reachable through a map, slice, pointer and array',
  'C10-4': 'strengthened: missed at first (table columns were named a, b, c); the table family shared by C04 and C10 gained columns whose names a writer has to quote or escape',
+ 'C13-4': 'NOT caught, by decision: the change only affects a user jp.Keyed collection as the parent of a Del; the statement of C13 names simple and gen data ("They behave the same on simple and gen data") and the check enumerates those two forms. A trial run with OrdKeyed/OrdIndexed data as a third form did catch it, together with 101 further failing cells on the unchanged tree (Modify does not reach into Keyed/Indexed collections in most branches, Set panics inside reflect for union keys, RemoveOne removes several): a different, larger subject than this property, so the form was not adopted (DESIGN 8.2)',
+ 'C17-5': 'a tokenizer defect (stale scratch buffer when the opening quote of a value is the last byte of a read): not caught by C17 (plain keys and values, no slow-path string before); caught by C03 (token family, byte-wise split)',
+ 'C17-6': 'a number defect of sen.Tokenizer (fraction digits beyond the 64-bit divisor): not caught by C17 (no long fractions in its documents); caught by C03 (joint agreement of all front-ends)',
+ 'C12-6': 'not caught by C12 (its function operands are constants and paths); caught by C14 (equation trees with a function whose argument is an operator expression, printed and re-parsed)',
+ 'C14-5': 'the stand-alone filter parser jp.NewFilter: not caught by C14 (it re-parses through ParseString / NewScript / MustParseEquation); caught by C12 (newfilter build of the logic leg, added after C05-6)',
+ 'C16-4': 'strengthened: missed at first by C16 and C15 (the embedded struct of the type alphabet had its only scalar at offset 0); EmbA gained a float64 and a bool field behind the string',
+ 'C16-5': 'missed by C16 (round trips use default options); strengthened C15, which catches it: the float64 representative is now a value no float32 holds',
+ 'C18-4': 'strengthened: missed at first (the writer-equality leg only used oj.JSON and sen.String); pretty.JSON / pretty.SEN added with every Width within 8 columns of the flat width of the tree and MaxDepth 1-3',
+ 'C18-5': 'strengthened: missed at first by C18 (gen.Parser.Parse only; C02 and C03 catch it); the parser-equality leg now also reads every rendered tree through ParseReader with one-byte reads on both sides',
+ 'C20-6': 'strengthened: missed at first (every plan was evaluated with @ = $); a local-context leg evaluates bodies that read @ with @ bound to a value that is not the root and compares value, @ and $ afterwards with asmref.RunLocal',
  'C13-3': 'strengthened: missed at first (RemoveOne doing nothing is within "at most one location", which the check accepts); the *One forms are now also compared between simple and gen data ("behave the same on simple and gen data")',
  'C17-3': 'not caught by C17 (its documents have plain keys); it is a tokenizer defect: C02 gained the string-pair family (every ordered pair of string items in five two-string placements, so that what one string leaves behind in a front-end shows in the next) and catches it',
  'C19-1': 'strengthened: missed at first; the perturbation catalogue gained rename (same member count, different key set)',
  'C20-1': 'strengthened: missed at first (each has no description in doc.go, asmref does not model it); an item-independence leg compares each(list) with the concatenation of each([item])',
 }
-ALSO = {'C16-3': 'C03', 'C10-2': 'C10, C02', 'C17-3': 'C02', 'C01-4': 'C07', 'C03-5': 'C07', 'C09-4': 'C07', 'C02-5': 'C07', 'C06-5': 'C07', 'C04-5': 'C07', 'C10-5': 'C07', 'C05-6': 'C12', 'C08-5': 'C08, C07'}
+ALSO = {'C16-3': 'C03', 'C10-2': 'C10, C02', 'C17-3': 'C02', 'C01-4': 'C07', 'C03-5': 'C07', 'C09-4': 'C07', 'C02-5': 'C07', 'C06-5': 'C07', 'C04-5': 'C07', 'C10-5': 'C07', 'C05-6': 'C12', 'C08-5': 'C08, C07', 'C17-5': 'C03', 'C17-6': 'C03', 'C12-6': 'C14', 'C14-5': 'C12', 'C16-4': 'C16, C15', 'C16-5': 'C15', 'C18-5': 'C18, C02, C03', 'C13-4': 'not caught (outside the stated data forms)'}
 verify = {}
 for l in open(os.path.join(SRC, 'verify.log')):
     m = re.match(r'(C\d+-\d): pkg=(\S+) suite_passes_with_change=(\S+) demo_fails_with_change=(\S+) demo_passes_without_change=(\S+) confirmed=(\d)', l)
